@@ -200,6 +200,9 @@ fn c13_case(ctx: &mut Ctx, rng: &mut Rng, i: u64) {
     let mut input = data.clone();
     let in0 = 0;
     let mut pre_in: Setter = None;
+    // the worker's own stdin (a scratch file with content) is at its beginning: a first command that wrongly inherits
+    // it instead of what was configured reads foreign bytes rather than an accidental end-of-file
+    unsafe { libc::syscall(libc::SYS_lseek, 0, in0, libc::SEEK_SET) };
     match stdin_kind {
         "file" => {
             std::fs::write(&in_path, &data).unwrap();
@@ -430,7 +433,7 @@ fn shape_class(s: &str) -> &'static str {
 
 const TERMS: [&str; 6] = ["popen", "join", "capture", "communicate", "stream_stdout", "stream_stdin"];
 const STDINS: [&str; 4] = ["inherit", "pipe", "data", "file"];
-const EARLIER: [&str; 4] = ["cat-like", "ignores-stdin-and-sleeps", "writes-a-lot", "writes-a-lot-to-stderr"];
+const EARLIER: [&str; 5] = ["cat-like", "ignores-stdin-and-sleeps", "writes-a-lot", "writes-a-lot-to-stderr", "writes-forever-ignoring-errors"];
 
 fn c14_case(ctx: &mut Ctx, n: usize, kfail: usize, stdin_kind: &str, term: &str, earlier: &str, detached: bool, via_clone: bool) {
     // which combinations exist
@@ -477,6 +480,8 @@ fn c14_case(ctx: &mut Ctx, n: usize, kfail: usize, stdin_kind: &str, term: &str,
                 // detached: it outlives the attempt by far, so whoever waits for it is seen to have waited
                 "ignores-stdin-and-sleeps" => Exec::cmd(&ctx.vchild).args(&["io", "1", if detached { "s3000,x0" } else { "s30,x0" }]).arg(dir.join(format!("io{}.rep", j))),
                 "writes-a-lot" => Exec::cmd(&ctx.vchild).args(&["io", "1", "w1:400000:4096,x0"]).arg(dir.join(format!("io{}.rep", j))),
+                // `while :; do echo; done`: survives EPIPE, so that only SIGPIPE (default action, not blocked) ends it once its reader is gone
+                "writes-forever-ignoring-errors" => Exec::cmd(&ctx.vchild).args(&["io", "1", "Z1"]).arg(dir.join(format!("io{}.rep", j))),
                 // more than a pipe holds on stderr: with capture/communicate the pipeline's stderr is a pipe the parent must serve or close
                 _ => Exec::cmd(&ctx.vchild).args(&["io", "1", "w2:300000:4096,x0"]).arg(dir.join(format!("io{}.rep", j))),
             }
@@ -509,6 +514,20 @@ fn c14_case(ctx: &mut Ctx, n: usize, kfail: usize, stdin_kind: &str, term: &str,
     if via_clone {
         pl = pl.clone();
     }
+    // the caller's thread may have signals blocked (it handles them with sigwait / signalfd): that is its business and
+    // not the commands'
+    let caller_blocks_sigpipe = (n + kfail + term.len()) % 2 == 1;
+    let mut old_mask: libc::sigset_t = unsafe { std::mem::zeroed() };
+    if caller_blocks_sigpipe {
+        unsafe {
+            let mut set: libc::sigset_t = std::mem::zeroed();
+            libc::sigemptyset(&mut set);
+            libc::sigaddset(&mut set, libc::SIGPIPE);
+            libc::sigaddset(&mut set, libc::SIGTERM);
+            libc::pthread_sigmask(libc::SIG_BLOCK, &set, &mut old_mask);
+        }
+        ctx.count("attempts_from_a_thread_with_SIGPIPE_blocked", 1);
+    }
     let m = run::monitored(|| -> Result<String, PopenError> {
         match term {
             "popen" => pl.popen().map(|v| format!("{} commands started", v.len())),
@@ -519,6 +538,9 @@ fn c14_case(ctx: &mut Ctx, n: usize, kfail: usize, stdin_kind: &str, term: &str,
             _ => pl.stream_stdin().map(|_| "writer".into()),
         }
     });
+    if caller_blocks_sigpipe {
+        unsafe { libc::pthread_sigmask(libc::SIG_SETMASK, &old_mask, std::ptr::null_mut()) };
+    }
     let evs = m.events();
     let forks = spawn::forked_pids(&evs);
     // state of the started commands at the moment the call returned
